@@ -14,7 +14,7 @@ func (w *vpWorld) checkAll(prop, step string) {
 		verifAssert(prop+"/agree", w.agree(), "after "+step+": memory and store disagree")
 	}
 	verifAssert(prop+"/no-lock-held", w.noLockHeld(), "after "+step+": a pod or pool lock is still held")
-	if w.provider != nil && !w.faulted {
+	if w.provider != nil {
 		verifAssert(prop+"/provider-node", w.invProvider(), "after "+step+": an IP of a live bound pod is not assigned to that pod's node at the cloud provider")
 	}
 }
